@@ -69,7 +69,7 @@ fn involution_body<const M: usize>() {
             assert!(rs.matrix()[i][s] == f[M - 1 - i][comp(s)], "scoring matrix: wrong mirrored cell");
         }
     }
-    crate::witness!(M > 1 && f[0][0] != f[M - 1][2], "asymmetric matrix");
+    crate::witness!(f[0][0] != f[M - 1][2], "asymmetric matrix");
 }
 
 /// frequency and weight matrices (frequencies produced by the real `to_freq`)
@@ -151,17 +151,17 @@ harness!(none, 24, c10_involution_m2, involution_body::<2>());
 harness!(none, 24, c10_involution_m3, involution_body::<3>());
 //@ C10 quick 800 rc involution, frequency and weight matrices, M=2
 harness!(none, 24, c10_involution_freq_m2, involution_freq_body::<2>());
-//@ C10 thorough 10800 rc commutes with to_freq/to_scoring/to_weight, symmetric background, M=1 (counts <= 7)
+//@ C10 thorough 3253 rc commutes with to_freq/to_scoring/to_weight, symmetric background, M=1 (counts <= 7)
 log_harness!(8, c10_commute_m1, commute_body::<1>());
-//@ C10 thorough 10800 rc commutes with conversions, M=2
+//@ C10 extended 10800 rc commutes with conversions, M=2
 log_harness!(8, c10_commute_m2, commute_body::<2>());
 //@ C10 quick 800 opposite-strand score identity, M=2, L=5, symbolic matrix and sequence
 harness!(none, 8, c10_strand_m2_l5, strand_body::<2, 5>());
 //@ C10 quick 800 opposite-strand score identity, M=3, L=6
 harness!(none, 8, c10_strand_m3_l6, strand_body::<3, 6>());
-//@ C10 thorough 3600 rc involution, M=1
+//@ C10 quick 800 rc involution, M=1
 harness!(none, 24, c10_involution_m1, involution_body::<1>());
-//@ C10 thorough 5400 rc commutes with conversions, M=3
+//@ C10 extended 5400 rc commutes with conversions, M=3
 log_harness!(8, c10_commute_m3, commute_body::<3>());
-//@ C10 thorough 3600 opposite-strand score identity, M=1, L=4
+//@ C10 quick 800 opposite-strand score identity, M=1, L=4
 harness!(none, 8, c10_strand_m1_l4, strand_body::<1, 4>());
